@@ -72,7 +72,8 @@ def make_case(ctx, rng):
         for c in sc.chroms:
             n = {"low": rng.randint(3, 10), "mid": rng.randint(10, 40), "high": rng.randint(40, 90)}[depth_mode]
             lr = rng.choice([(60, 150), (120, 350), (250, 700)])
-            reads += synth.simulate_reads(rng, sc, s, c, n, len_range=lr, paired_fraction=rng.choice([0, 0, 0.4]))
+            reads += synth.simulate_reads(rng, sc, s, c, n, len_range=lr, paired_fraction=rng.choice([0, 0, 0.4]),
+                                          edge_fraction=rng.choice([0.0, 0.3, 0.7]))
     opts = {"tag": rng.choice(["PS", "HP"]), "only_snvs": rng.random() < 0.2,
             "downsampling": rng.choice([2, 3, 4, 6, 15]),
             "samples": None}
